@@ -154,8 +154,10 @@ class C18(ParserSessionProp):
             op['max_chunk_size'] = 50
             op.pop('schedule', None)
         style = rng.choice(['rich', 'rich', 'plain', 'bare'])
+        from depsim.props.c19 import _unusual_words
         for s in spec['world']['sentences']:
             s['token_style'] = style
+            _unusual_words(rng, s)
         lang = spec['world']['grammar']['lang']
         length = rng.choice([1, 2, 2, 3, 4, 6, 9, 12])
         hist = []
